@@ -106,6 +106,9 @@ func c08Alphabet() []*sessmc.Event {
 		sessmc.EvTimeout(quickfix.VerifNeedHeartbeat), sessmc.EvTimeout(quickfix.VerifPeerTimeout),
 		sessmc.EvTimeout(quickfix.VerifLogonTimeout), sessmc.EvTimeout(quickfix.VerifLogoutTimeout),
 		sessmc.EvStop(),
+		// the peer pipelines: a message that ends the connection arrives with another one already buffered behind it
+		sessmc.EvPipelined(sessmc.EvIn("5", 0, false), sessmc.EvIn("1", 1, false, fixscan.Field{112, "BEHIND"})),
+		sessmc.EvPipelined(sessmc.EvIn("5", 0, false), sessmc.EvIn("D", 1, false)),
 	}
 }
 
